@@ -284,3 +284,24 @@ Proof.
     + rewrite !Rabs_left by lra. lra.
   - intros i Hi. destruct i as [|[|i]]; [lra|lra|lia].
 Qed.
+
+(* ---------- without [fok] the statement is FALSE of the faithful model ----------
+   (recorded finding FunctionalComp-MatrixOperator-weighted-space):
+   f = L2NormSquared(rn(1)) o MatrixOperator([[1]]) on rn(1, weighting=2), x = 1:
+   the code's derivative(x)(d) is <d, 2x>_w = 4 d, the derivative of x |-> x^2 is 2 d. *)
+Definition bad_f : fexprR := FCompM (FL2Sq 1) [1] 1 [[1]].
+Lemma fgrad_weighted_comp_refuted :
+  fwt bad_f = true /\ length [2] = fdim bad_f /\ fregular [2] bad_f [1] /\
+  ~ sdiff (fdim bad_f) (feval sqrt [2] bad_f) [1] (fun d => wdot [2] d (fgrad sqrt [2] bad_f [1])).
+Proof.
+  repeat split; try reflexivity.
+  intros H.
+  pose proof (H (line [1] [1]) [1] (curve_line 1 [1] [1] eq_refl eq_refl)) as H1.
+  assert (H2 : derivable_pt_lim (fun t => feval sqrt [2] bad_f (line [1] [1] t)) 0 2).
+  { apply (dpl_ext (fun t => (1 + t) * (1 + t))).
+    - intros t. cbn. numR. ring.
+    - apply (dpl_eq _ _ ((0 + 1) * (1 + 0) + (1 + 0) * (0 + 1))); [ring|].
+      apply (derivable_pt_lim_mult (fun t => 1 + t) (fun t => 1 + t));
+        (apply derivable_pt_lim_plus; [apply derivable_pt_lim_const|apply derivable_pt_lim_id]). }
+  pose proof (uniqueness_limite _ _ _ _ H1 H2) as E. cbn in E. numR. lra.
+Qed.
